@@ -105,25 +105,31 @@ def run_proofs(res, cfg):
     """returns list of broken obligations (strings)"""
     broken = []
     mods = cfg["lean_modules"]
-    audit = cfg["audit_module"]
-    targets = mods + [audit, "p2driver"]
+    audits = cfg["audit_module"]
+    if isinstance(audits, str):
+        audits = [audits]
+    audits = list(audits) + list(cfg.get("extra_audit_modules", []))
+    targets = mods + audits + ["p2driver"]
     rc, out = sh(["lake", "build"] + targets, cwd=LEAN, timeout=3600)
     if rc != 0:
         errs = re.findall(r"^error: (.*)$", out, flags=re.M)
         broken.append({"what": "lake build failed", "targets": targets, "errors": errs[:20],
                        "log_tail": out[-3000:]})
     # forbidden tokens
-    for m in lean_sources(mods + [audit]):
+    for m in lean_sources(mods + audits):
         path = os.path.join(LEAN, *m.split(".")) + ".lean"
         txt = strip_lean_comments(open(path).read())
         hit = FORBIDDEN.search(txt)
         if hit:
             broken.append({"what": "forbidden token", "file": path, "token": hit.group(0).strip()})
     # axiom audit
-    apath = os.path.join(LEAN, *audit.split(".")) + ".lean"
-    wanted = re.findall(r"^#print axioms\s+(\S+)", open(apath).read(), flags=re.M)
-    res.obligations = len(wanted)
-    if rc == 0:
+    res.obligations = 0
+    for audit in audits:
+        apath = os.path.join(LEAN, *audit.split(".")) + ".lean"
+        wanted = re.findall(r"^#print axioms\s+(\S+)", open(apath).read(), flags=re.M)
+        res.obligations += len(wanted)
+        if rc != 0:
+            continue
         # lake replays the stored log of an up-to-date module, so the `#print axioms` output is
         # available without re-elaborating; fall back to running lean on the file directly
         rc2, out2 = sh(["lake", "build", audit], cwd=LEAN, timeout=1800)
@@ -137,7 +143,7 @@ def run_proofs(res, cfg):
         for w in wanted:
             full = [k for k in got if k == w or k.endswith("." + w)]
             if not full:
-                broken.append({"what": "theorem missing from audit output", "theorem": w})
+                broken.append({"what": "theorem missing from audit output", "theorem": w, "audit": audit})
                 continue
             ax = got[full[0]]
             if ax - ALLOWED_AXIOMS:
@@ -146,7 +152,7 @@ def run_proofs(res, cfg):
                 res.discharged += 1
                 res.theorems.append({"theorem": full[0], "axioms": sorted(ax)})
         if rc2 != 0:
-            broken.append({"what": "audit file failed", "log_tail": out2[-1500:]})
+            broken.append({"what": "audit file failed", "audit": audit, "log_tail": out2[-1500:]})
     return broken
 
 
